@@ -8,7 +8,7 @@
 (* and the end clauses after the last one.  Steps are total: the verdict    *)
 (* names the first failing clause and the token index.                      *)
 (***************************************************************************)
-EXTENDS Terminal, Json, IOUtils
+EXTENDS RenderShape, Json, IOUtils
 
 Traces == JsonDeserialize(IOEnv.TRACE_FILE)
 
@@ -30,8 +30,17 @@ StepClause(tr, S) ==
   ELSE IF ~(S.c \in tr.c0..Min(tr.c0 + tr.rw, tr.cols - 1)) THEN "cursor-col-outside"
   ELSE "ok"
 
+\* spec -> code binding of RenderShape.tla: the real output must be an instance of the
+\* choreography specified for its parameters (same skeleton)
+ShapeParams(tr) ==
+  [style |-> tr.shape.style, method |-> tr.shape.method, quirk |-> tr.shape.quirk,
+   mix |-> tr.shape.mix, blend |-> tr.shape.blend, nch |-> 1, split |-> FALSE,
+   rw |-> tr.rw, rh |-> tr.rh]
+ShapeOK(tr) == tr.shape.style = "none" \/ Skeleton([toks |-> tr.toks, gfx |-> tr.gfx]) = Skeleton(Shape(ShapeParams(tr)))
+
 EndClause(tr, S) ==
-  IF Touched(S) # Rect(tr) THEN "not-covered: some cell of the advertised rectangle was not written"
+  IF ~ShapeOK(tr) THEN "choreography: the output is not an instance of the sequence specified in RenderShape.tla"
+  ELSE IF Touched(S) # Rect(tr) THEN "not-covered: some cell of the advertised rectangle was not written"
   ELSE IF S.r # tr.r0 + tr.rh - 1 THEN "cursor-end-row: cursor not on the last line"
   ELSE IF S.c # Min(tr.c0 + tr.rw, tr.cols - 1) THEN "cursor-end-col: cursor not just past the last column"
   ELSE IF ~SgrDefault(S) THEN "sgr-not-reset: text attributes not reset at the end"
